@@ -56,7 +56,7 @@ def fn_inotify_AddWith : List SkOp := [
     ⟨"call", "recursivePath", [], ["mu"]⟩,
     ⟨"ifBegin", "!(%1)", [], ["mu"]⟩,
     ⟨"call", "AddWith$add", [], ["mu"]⟩,
-    ⟨"ret", "%1(%2, %3, false)", [], ["mu"]⟩,
+    ⟨"ret", "%1(…)", [], ["mu"]⟩,
     ⟨"ifEnd", "", [], ["mu"]⟩,
     ⟨"litBegin", "", [], ["mu"]⟩,
     ⟨"ifBegin", "%1!=nil", [], ["mu"]⟩,
@@ -67,14 +67,14 @@ def fn_inotify_AddWith : List SkOp := [
     ⟨"call", "sendEvent", [], ["mu"]⟩,
     ⟨"ifEnd", "", [], ["mu"]⟩,
     ⟨"call", "AddWith$add", [], ["mu"]⟩,
-    ⟨"ret", "%1(%2, %3, true)", [], ["mu"]⟩,
+    ⟨"ret", "%1(…)", [], ["mu"]⟩,
     ⟨"ifEnd", "", [], ["mu"]⟩,
     ⟨"ifBegin", "%1==%2", [], ["mu"]⟩,
     ⟨"ret", "fmt.Errorf(\"fsnotify: not a directory: %q\", %1)", [], ["mu"]⟩,
     ⟨"ifEnd", "", [], ["mu"]⟩,
     ⟨"ret", "nil", [], ["mu"]⟩,
     ⟨"litEnd", "", [], ["mu"]⟩,
-    ⟨"ret", "filepath.WalkDir(%1, func(%2 string, %3 fs.DirEntry, %4 error) error { if %4!=nil { return %4 } if !%3.IsDir() { if %2==%1 { return fmt.Errorf(\"fsnotify: not a directory: %q\", %1) } return nil } if %5.·&&%2!=%1 { %6.sendEvent(…) } return %7(%2, %5, true) })", [], ["mu"]⟩
+    ⟨"ret", "filepath.WalkDir(%1, func(%2 string, %3 fs.DirEntry, %4 error) error { if %4!=nil { return %4 } if !%3.IsDir() { if %2==%1 { return fmt.Errorf(\"fsnotify: not a directory: %q\", %1) } return nil } if %5.·&&%2!=%1 { %6.sendEvent(…) } return %7(…) })", [], ["mu"]⟩
 ]
 
 def fn_inotify_AddWith_add : List SkOp := [
